@@ -372,25 +372,28 @@ def rootType : SType → SType
   | union n ms => union n ms
 
 mutual
-/-- `_iter_values(type_, depth)` of `iter_atomic_values` (decoder.py, with fix F20c): walk the
-derivation chain (`base_type`; `item_type` of a list at depth 1 only) to the nearest type that has
-a prototype; a union contributes the prototypes of its members in order (depth + 1).  A list that
-is reached as a union member contributes nothing (`XsdList.base_type` is `None`). -/
-def iterValues (depth : Nat) : SType → List B
-  | builtin b => if depth > 15 then [] else [b]
-  | union _ ms => if depth > 15 then [] else iterValuesL (depth + 1) ms
-  | restr _ base _ => iterValues depth base
-  | list _ item => if depth == 1 then iterValues 1 item else []
-def iterValuesL (depth : Nat) : List SType → List B
+/-- `_iter_values(type_, depth)` of `iter_member_values` (decoder.py, fixes F20c, F20h/j): walk the
+derivation chain (`base_type`, `item_type`) to the nearest type that has a prototype; a union
+contributes the prototypes of its members in order (depth + 1), each paired with the member type it
+stands for (`member or member_type`: the innermost union member).  `none` = not under a union. -/
+def iterMembers (depth : Nat) : SType → List (Option SType × B)
+  | builtin b => if depth > 15 then [] else [(none, b)]
+  | union _ ms => if depth > 15 then [] else iterMembersL (depth + 1) ms
+  | restr _ base _ => iterMembers depth base
+  | list _ item => iterMembers depth item
+def iterMembersL (depth : Nat) : List SType → List (Option SType × B)
   | [] => []
-  | m :: ms => iterValues depth m ++ iterValuesL depth ms
+  | m :: ms => ((iterMembers depth m).map fun ob => (some (ob.1.getD m), ob.2)) ++ iterMembersL depth ms
 end
 
-/-- `iter_atomic_values(xsd_type)` for a simple type (decoder.py:107-117) -/
-def protos (t : SType) : List B :=
+/-- `iter_member_values(xsd_type)` for a simple type -/
+def memberProtos (t : SType) : List (Option SType × B) :=
   match t with
-  | builtin b => [b]                                    -- xsd_type.name in atomic_values
-  | _ => iterValues 1 t
+  | builtin b => [(none, b)]                            -- xsd_type.name in atomic_values
+  | _ => iterMembers 1 t
+
+/-- `iter_atomic_values(xsd_type)`: the prototypes alone -/
+def protos (t : SType) : List B := t.memberProtos.map (·.2)
 
 end SType
 
@@ -694,29 +697,41 @@ inductive TV where
   | viaSchema
   deriving Repr, DecidableEq, Inhabited
 
-/-- the first prototype that accepts the literal (`for value in values: try: decode(item) … else:
-break`, decoder.py with fix F20g) -/
-def firstProto : List B → String → Option Atom
-  | [], _ => none
-  | b :: bs, s => match pyDecode b s with
-    | some a => some a
-    | none => firstProto bs s
+/-- one attempt of the prototype loop (decoder.py get_atomic_sequence, fixes F20g/h/j): outside a
+union the prototype's constructor decides; under a union the literal must first be valid for the
+member (`member.is_valid(item)` — the schema processor's answer, parameter `valid`), a list member
+then decodes its items -/
+def tryMember (valid : SType → String → Bool) (o : Option SType) (b : B) (item : String) : Option (List Atom) :=
+  match o with
+  | none => (pyDecode b item).map ([·])
+  | some m =>
+    if !valid m item then none
+    else if m.isList then (splitWs item).mapM (pyDecode b)
+    else (pyDecode b item).map ([·])
 
-/-- every item decoded by `firstProto`; `none` = some item is accepted by no prototype -/
-def decodeAll (bs : List B) : List String → Option (List Atom)
+/-- the first (member, prototype) pair that accepts the literal -/
+def firstMember (valid : SType → String → Bool) : List (Option SType × B) → String → Option (List Atom)
+  | [], _ => none
+  | (o, b) :: ps, s => match tryMember valid o b s with
+    | some v => some v
+    | none => firstMember valid ps s
+
+/-- every item decoded by `firstMember`; `none` = some item is accepted by no prototype -/
+def decodeAll (valid : SType → String → Bool) (ps : List (Option SType × B)) : List String → Option (List Atom)
   | [] => some []
-  | w :: ws => match firstProto bs w, decodeAll bs ws with
-    | some a, some r => some (a :: r)
+  | w :: ws => match firstMember valid ps w, decodeAll valid ps ws with
+    | some a, some r => some (a ++ r)
     | _, _ => none
 
-/-- the item loop of `get_atomic_sequence` (decoder.py:150-179): every literal — every item of a
-list — is decoded by the first prototype that accepts it; an item that no prototype accepts raises
-(`err`); without prototypes the answer is the schema processor's own `xsd_type.decode` -/
-def atomicLoop (isList : Bool) (text : String) (bs : List B) : TV :=
+/-- the item loop of `get_atomic_sequence`: every literal — every item of a list — is decoded by the
+first prototype that accepts it; an item that no prototype accepts raises (`err`); without
+prototypes the answer is the schema processor's own `xsd_type.decode` -/
+def atomicLoop (valid : SType → String → Bool) (isList : Bool) (text : String)
+    (ps : List (Option SType × B)) : TV :=
   let items := if isList then splitWs text else [text]
-  match bs with
+  match ps with
   | [] => if items.isEmpty then .ok [] else .viaSchema
-  | _ => match decodeAll bs items with
+  | _ => match decodeAll valid ps items with
     | some vs => .ok vs
     | none => .err
 
@@ -729,8 +744,8 @@ def contentType (s : Schema) : Ty → Option SType
     | _ => none
 
 /-- `get_atomic_sequence(xsd_type, text)` for `text is not None` and a type with simple content -/
-def atomicSequence (t : SType) (text : String) : TV :=
-  atomicLoop t.isList text t.protos
+def atomicSequence (valid : SType → String → Bool) (t : SType) (text : String) : TV :=
+  atomicLoop valid t.isList text t.memberProtos
 
 def allText {α : Type} : Forest α → String
   | .nil => ""
@@ -768,7 +783,7 @@ def contentKind (s : Schema) : Ty → ContentKind
     | _ => .emptyC
 
 /-- `EtreeElementNode.iter_typed_values` (xpath_nodes.py:1176-1192, with fix F20e) -/
-def elemTypedValue (s : Schema) (a : Ann) (attrs : List (String × String)) (kids : Forest Ann) : TV :=
+def elemTypedValue (valid : SType → String → Bool) (s : Schema) (a : Ann) (attrs : List (String × String)) (kids : Forest Ann) : TV :=
   match a.xsdType with
   | none => .ok [⟨.untypedAtomic, allText kids⟩]
   | some ty =>
@@ -784,10 +799,10 @@ def elemTypedValue (s : Schema) (a : Ann) (attrs : List (String × String)) (kid
     | .simpleC t =>
       if nilled attrs && (a.xsdElem.map (·.nillable)).getD false then .ok []
       else match firstText kids with
-        | some txt => atomicSequence t txt
+        | some txt => atomicSequence valid t txt
         | none =>
           if nilled attrs then .ok [⟨.string, ""⟩]            -- `yield ''`
-          else atomicSequence t ((a.xsdElem.bind (·.default)).getD "")
+          else atomicSequence valid t ((a.xsdElem.bind (·.default)).getD "")
 
 /-- an attribute node of the lazily built `attributes` list: name, value, `xsd_type`
 (`none` = untyped), and whether it was added from a value constraint -/
@@ -843,10 +858,10 @@ def AttrNode.typeName (a : AttrNode) : Option String :=
   | some t => t.name
 
 /-- `TextAttributeNode.iter_typed_values` = `get_atomic_sequence(self.xsd_type, self.value)` -/
-def attrTypedValue (a : AttrNode) : TV :=
+def attrTypedValue (valid : SType → String → Bool) (a : AttrNode) : TV :=
   match a.type with
   | none => .ok [⟨.untypedAtomic, a.value⟩]
-  | some t => atomicSequence t a.value
+  | some t => atomicSequence valid t a.value
 
 /-! ## the proxy's own state (`AbstractSchemaProxy`, schema_proxy.py:27-74)
 
@@ -1010,7 +1025,9 @@ inductive Axis where
   | parent | ancestor | follSibling | precSibling
   deriving DecidableEq, Repr, Inhabited
 
-inductive NTest where | name (n : String) | star | node
+/-- `schemaElem ns`: the kind test `schema-element(N)`; `ns` = `N` and the names of the members of
+its substitution group (`_xpath2_operators.py select__schema_element_kind_test`, fix-c20-4) -/
+inductive NTest where | name (n : String) | star | node | schemaElem (ns : List String)
   deriving DecidableEq, Repr, Inhabited
 
 /-- does `p` have a child or attribute node with index `i`? -/
@@ -1072,6 +1089,7 @@ def testOk {α : Type} : Axis → NTest → Item α → Bool
   | .attrib, _, _ => false
   | _, .star, .elem _ _ _ _ _ => true
   | _, .name n, .elem _ _ m _ _ => m == n
+  | _, .schemaElem ns, .elem _ _ m _ _ => ns.contains m
   | _, _, _ => false
 
 def isDoc {α : Type} : Item α → Bool
